@@ -10,6 +10,7 @@ import (
 	"fmt"
 	"sort"
 	"strings"
+	"sync"
 	"time"
 
 	gmsl "github.com/matrix-org/gomatrixserverlib"
@@ -72,6 +73,7 @@ type world struct {
 	signMismatch string
 	parseErr     error
 	evJSON       []byte // the built event without signatures
+	crossChecked bool
 }
 
 // signingName / key material of abstract server s in this scenario. In pseudo-ID rooms s1 and s2 (when it is the
@@ -220,7 +222,8 @@ func (w *world) signatureOf(impl gmsl.IRoomVersion, evJSON []byte, name string, 
 	if !ok {
 		panic("harness: SignJSON did not add the signature")
 	}
-	if crossCheck && w.signMismatch == "" {
+	if crossCheck && w.signMismatch == "" && !w.crossChecked {
+		w.crossChecked = true // once per event: every signature is made over the same form
 		p, err := impl.NewEventFromTrustedJSON(append([]byte(nil), evJSON...), false)
 		if err != nil {
 			panic(fmt.Sprintf("harness: event does not parse: %v", err))
@@ -712,12 +715,7 @@ func replayOne(i int, raw json.RawMessage, seed int64) hx.Result {
 				r.Ver, r.Kind, r.Required, r.Sig, r.Src, r.Vol, r.TM, r.Verdict, errOne),
 			Want: r.Verdict, Got: fmt.Sprint(errOne), Extra: string(p.JSON())}
 	}
-	// the same object a second time: nothing the first call cached changes the verdict
-	if again := gmsl.VerifyEventSignatures(ctx, p, ring, userIDForSender); (again == nil) != r.Verdict {
-		return hx.Result{OK: false, NT: cls, Key: fmt.Sprintf("C06/verify-twice/%s:model=%v", cls, r.Verdict),
-			What: fmt.Sprintf("a second VerifyEventSignatures on the same event object gives another verdict (room version %s): %v", r.Ver, again)}
-	}
-	// the batch form: between an event that verifies and one that does not
+	// the batch form (the same event object a second time): between an event that verifies and one that does not
 	good, bad := w.controls(impl)
 	errs := gmsl.VerifyAllEventSignatures(ctx, []gmsl.PDU{good, p, bad}, ring, userIDForSender)
 	if len(errs) != 3 {
@@ -742,7 +740,7 @@ func replayOne(i int, raw json.RawMessage, seed int64) hx.Result {
 // signatures) whose signatures have the opposite validity, in both orders: every position gets its own verdict.
 func (w *world) twins(impl gmsl.IRoomVersion, ring gmsl.KeyRing, p gmsl.PDU, cls string, idx int) *hx.Result {
 	r := w.r
-	if r.TM != "normal" || (r.Fail != "" && r.Fail != "none") || (r.MapSt != "" && r.MapSt != "ok") {
+	if r.TM != "normal" || (r.Fail != "" && r.Fail != "none") || (r.MapSt != "" && r.MapSt != "ok") || others(r) != "absent" {
 		return nil
 	}
 	states := map[string]string{}
@@ -782,7 +780,7 @@ func (w *world) twins(impl gmsl.IRoomVersion, ring gmsl.KeyRing, p gmsl.PDU, cls
 		panic("harness: the twin event has another event ID: " + idP + " vs " + idT)
 	}
 	ctx := context.Background()
-	for _, order := range [][]gmsl.PDU{{p, twin}, {twin, p}, {p, twin, p}} {
+	for _, order := range [][]gmsl.PDU{{p, twin}, {twin, p}} {
 		errs := gmsl.VerifyAllEventSignatures(ctx, order, ring, userIDForSender)
 		if len(errs) != len(order) {
 			return &hx.Result{OK: false, NT: cls, Key: "C06/verify-all/length", What: fmt.Sprintf("VerifyAllEventSignatures returned %d results for %d events", len(errs), len(order))}
@@ -817,6 +815,10 @@ func (w *world) controls(impl gmsl.IRoomVersion) (gmsl.PDU, gmsl.PDU) {
 		h := sha256.Sum256([]byte("c06-room"))
 		room = "!" + base64.RawURLEncoding.EncodeToString(h[:])
 	}
+	if c, ok := controlCache.Load(w.r.Ver); ok { // built once per room version (the events are only read)
+		pair := c.([2]gmsl.PDU)
+		return pair[0], pair[1]
+	}
 	pe := gmsl.ProtoEvent{SenderID: sender, RoomID: room, Type: "m.room.message", Depth: 3,
 		PrevEvents: []string{}, AuthEvents: []string{}, Content: spec.RawJSON(`{"body":"control"}`)}
 	good, err := impl.NewEventBuilderFromProtoEvent(&pe).Build(time.UnixMilli(1700000000000), spec.ServerName(name), id, k)
@@ -827,5 +829,9 @@ func (w *world) controls(impl gmsl.IRoomVersion) (gmsl.PDU, gmsl.PDU) {
 	if err != nil {
 		panic(err)
 	}
+	_, _ = good.EventID(), bad.EventID()
+	controlCache.Store(w.r.Ver, [2]gmsl.PDU{good, bad})
 	return good, bad
 }
+
+var controlCache sync.Map
